@@ -4,6 +4,6 @@ CONSTANTS
   MaxMarkets = 3
   MaxK = 2
   Costs <- CostsQuick
-  PrintMod = 8
+  PrintMod = 12
 INVARIANTS IAll
 CHECK_DEADLOCK FALSE
